@@ -1,6 +1,7 @@
 """C04 -- items are visible until their expiry time passes and never afterwards."""
 import pickle
 
+import callguard
 import fw
 import gen_hist
 import instr
@@ -17,11 +18,29 @@ TRUSTED = [
     'times are Z ticks of 2^-10 s; the harness keeps clock and ttl on that grid (now + expire exact in binary64)',
 ]
 ASSUMPTIONS = ['one client at a time (the other-handle scenarios use several handles, one after the other); the clock is frozen during a call', 'expire()/lazy-cull clauses: absolute expiry times >= 0 (finding C04-F1 otherwise)',
-               'other-handle scenarios are decided by the monitor only (rows before / after through the harness\'s own connection); the row model has one handle']
+               'other-handle scenarios are decided by the monitor only (rows before / after through the harness\'s own connection); the row model has one handle',
+               'twin-key histories (a pickled key and the bytes key equal to its pickle): monitor only, not rendered for the row model']
 
 W = {'set': 16, 'add': 8, 'get': 14, 'contains': 8, 'touch': 8, 'incr': 8, 'pop': 5, 'delete': 5, 'delitem': 2,
      'push': 8, 'pull': 5, 'peek': 4, 'peekitem': 3, 'expire': 4, 'cull': 1, 'len': 1, 'iter': 1, 'evict': 0, 'clear': 0,
      'reversed': 0, 'iterkeys': 1, 'stats': 0}
+
+
+CALL_SECONDS = 30          # wall time after which a single API call is taken not to return
+_HANGS = [0]
+
+
+class Runner(seqdrv.Runner):
+    """the sequential driver with a bound on every call: a call that does not return (the library's peek / pull / peekitem retry for ever on a
+    row whose value file is gone) is recorded with the result ('raise', 'DidNotReturn') instead of hanging the check"""
+
+    def call(self, item):
+        try:
+            with callguard.bounded(CALL_SECONDS if _HANGS[0] < 2 else 2, item['op']):       # (after two such calls the limit drops: every one costs its limit)
+                return seqdrv.Runner.call(self, item)
+        except callguard.CallDidNotReturn:
+            _HANGS[0] += 1
+            return ('raise', 'DidNotReturn'), 'RRaise EStore'
 
 
 def find_row(disk, rows, key):
@@ -46,6 +65,9 @@ def check_trace(res, runner, tr, cfg, stats):
         op, a, now = item['op'], item['args'], item['now']
         rows = rec['obs'][0]
         key = runner.objs[a['k']] if 'k' in a else None
+        if r == ('raise', 'DidNotReturn'):
+            viol.append(('call_did_not_return:%s' % op, '%s %r did not return within %d s of wall time' % (op, a, CALL_SECONDS), i))
+            break
         row = find_row(disk, prev_rows, key) if key is not None or op in ('get',) and 'k' in a else None
         if 'k' in a:
             row = find_row(disk, prev_rows, key)
@@ -110,6 +132,33 @@ def check_trace(res, runner, tr, cfg, stats):
                              'expire() left %d of %d passed items (expire_times %s)' % (len(left), len(passed), sorted(set(x[4] for x in left))[:3]), i))
             if r != len(gone):
                 viol.append(('expire_count', 'expire() returned %r but removed %d' % (r, len(gone)), i))
+        # an item's expiry time is what the last write to THAT item made it: no call changes the expiry time of an item stored under another
+        # key, and only set / add / incr / touch change the one of their own key
+        own = find_row(disk, prev_rows, key) if 'k' in a else None
+        before = dict(((x[0], bytes(x[1]) if isinstance(x[1], memoryview) else x[1], x[2]), x) for x in prev_rows)
+        for y in rows:
+            x = before.get((y[0], bytes(y[1]) if isinstance(y[1], memoryview) else y[1], y[2]))
+            if x is None or x[4] == y[4]:
+                continue
+            if own is not None and x[0] == own[0]:
+                if op in ('set', 'add', 'incr', 'touch'):
+                    continue
+                viol.append(('expiry_changed_by_lookup:%s' % op, '%s(%r) changed the expire_time of the item from %r to %r' % (op, key, x[4], y[4]), i))
+            else:
+                other = disk.get(x[1] if not isinstance(x[1], memoryview) else bytes(x[1]), x[2])
+                viol.append(('foreign_expiry_changed:%s' % op, '%s%s changed the expire_time of the item stored under ANOTHER key, %r, from %r to %r (now %r): that item %s'
+                             % (op, '(%r)' % (key,) if 'k' in a else '()', other, x[4], y[4], now,
+                                'now outlives its own time-to-live' if x[4] is not None and (y[4] is None or y[4] > x[4]) else 'now dies before its own time-to-live has passed'), i))
+            break
+        if op == 'touch' and 'k' in a:
+            rown = find_row(disk, rows, key)
+            if r is True and own is not None and live(own, now):
+                wexp = None if a.get('expire') is None else now + a['expire']
+                if rown is None or rown[4] != wexp:
+                    viol.append(('wrong_expiry_written:touch', 'touch(%r, %r) at %r returned True and left expire_time %r, expected %r'
+                                 % (key, a.get('expire'), now, None if rown is None else rown[4], wexp), i))
+            elif r is False and own is not None and rown is not None and rown[4] != own[4]:
+                viol.append(('wrong_expiry_written:touch', 'touch(%r) returned False and changed expire_time from %r to %r' % (key, own[4], rown[4]), i))
         if op in ('set', 'add', 'incr') and 'k' in a:
             # what a successful write stored stays until ITS expiry time passes (no ttl: forever)
             wrote, wexp = False, None
@@ -160,7 +209,7 @@ def run_histories(ctx, res, nhist, length, stats, big=False):
             w.update({'set': 60, 'add': 10, 'expire': 2, 'get': 8})
         g = gen_hist.Gen(ctx.rng, cfg, weights=w, keys=keys, ttls=ttls, prefixes=[None, 'q'])
         hist = g.history(length if not (big and not h % 2) else max(length, 420))
-        r = seqdrv.Runner(ctx, cfg, observe_every=1)
+        r = Runner(ctx, cfg, observe_every=1)
         r.objs = g.objs
         tr = r.run(hist)
         viol = check_trace(res, r, tr, cfg, stats)
@@ -174,6 +223,66 @@ def run_histories(ctx, res, nhist, length, stats, big=False):
         terms.append(seqdrv.history_check_term(r, tr, cfg))
         recs.append((g, hist, cfg))
     return terms, recs
+
+
+def twin_keys(protocol):
+    """pairs of DISTINCT keys that share the database key column: a key stored in pickled form (raw = 0) and the bytes key equal to that
+    pickle (raw = 1)"""
+    import pickletools
+    out = []
+    for k in ((1, 2), None, 2 ** 64, ('session', 7), True, (None,)):
+        out.append((k, pickletools.optimize(pickle.dumps(k, protocol=protocol))))
+    return out
+
+
+def twin_histories(ctx, res, stats, thorough):
+    """Histories over twin pairs (twin_keys) and one ordinary key: set / add / touch / incr / lookups / expire / removals with ttls and clock
+    steps that land around the expiry times, first a directed prefix (both twins stored with different ttls, each touched, one removed, the
+    absent one touched), then random calls.  Same monitor as every history (visibility, written expiry, nobody else's expiry changed)."""
+    n = 0
+    pols = ['none', 'least-recently-stored', 'least-recently-used', 'least-frequently-used']
+    pairs = twin_keys(pickle.HIGHEST_PROTOCOL)
+    nh = len(pairs) * (4 if thorough else 1)
+    w = dict(W)
+    w.update({'set': 10, 'add': 8, 'touch': 22, 'get': 12, 'contains': 8, 'incr': 3, 'pop': 3, 'delete': 4, 'delitem': 1, 'expire': 4, 'push': 0, 'pull': 0,
+              'peek': 0, 'peekitem': 2, 'cull': 1, 'iterkeys': 1})
+    for h in range(nh):
+        a_key, b_key = pairs[h % len(pairs)]
+        cfg = seqdrv.Config(policy=pols[(h + ctx.seed) % 4], statistics=(h % 3 == 0), min_file_size=16, cull_limit=[0, 10, 1][h % 3])
+        ttls = [None, 1, 1, 2, 10, 50, 0, 2 ** -10, 3600] if h % 2 else [1, 2, None, 5]
+        g = gen_hist.Gen(ctx.rng, cfg, weights=w, keys=[a_key, b_key, 'plain'], ttls=ttls, prefixes=[None])
+        g.counter_keys = [a_key, b_key]
+        A, B, V = g.ref(a_key), g.ref(b_key), g.ref(7)
+        if h % 2:
+            A, B = B, A
+        t = 1000.0
+        pre = [{'op': 'set', 'args': {'k': A, 'v': V, 'expire': 10, 'tag': None}, 'now': t},
+               {'op': 'set', 'args': {'k': B, 'v': V, 'expire': [100, None, 2][h % 3], 'tag': 't1'}, 'now': t},
+               {'op': 'touch', 'args': {'k': A, 'expire': [1000, None, 1][(h // 2) % 3]}, 'now': t + 1},
+               {'op': 'get', 'args': {'k': B, 'read': False}, 'now': t + 1},
+               {'op': 'touch', 'args': {'k': B, 'expire': 5}, 'now': t + 1.5},
+               {'op': 'contains', 'args': {'k': A}, 'now': t + 1.5},
+               {'op': 'delete', 'args': {'k': A}, 'now': t + 2},
+               {'op': 'touch', 'args': {'k': A, 'expire': 3}, 'now': t + 2},          # absent, its twin is live
+               {'op': 'add', 'args': {'k': A, 'v': V, 'expire': 1, 'tag': None}, 'now': t + 2},
+               {'op': 'get', 'args': {'k': B, 'read': False}, 'now': t + 4},
+               {'op': 'touch', 'args': {'k': A, 'expire': 60}, 'now': t + 4},         # expired but still stored, its twin is live
+               {'op': 'get', 'args': {'k': B, 'read': False}, 'now': t + 6}]
+        g.now = t + 6
+        g.expiries += [t + 10, t + 6.5, t + 3]
+        hist = pre + g.history(70 if thorough else 50)
+        r = Runner(ctx, cfg, observe_every=1)
+        r.objs = g.objs
+        tr = r.run(hist)
+        viol = check_trace(res, r, tr, cfg, stats)
+        for sig, what, idx in viol[:2]:
+            res.violations.append(fw.Violation(sig, 'keys %r and %r share the key column: %s' % (a_key, b_key, what),
+                                               dict(gen_hist.history_json(g.objs, hist[:idx + 1], cfg), check='history', failing_call=idx)))
+        for rec in tr.calls:
+            res.count([rec['item']['op'], repr(sorted(rec['item']['args'].items())), rec['item']['now'], 'twins', h], nontrivial=rec['res'] != 'default')
+            stats['ops'][rec['item']['op']] = stats['ops'].get(rec['item']['op'], 0) + 1
+        n += len(tr.calls)
+    stats['twin_calls'] = n
 
 
 def correspondence(ctx, res, terms, recs):
@@ -489,7 +598,11 @@ def run(ctx, big=False):
                 'are stored through one handle of a Cache / FanoutCache / DjangoCache; expire(), cull(), evict(tag), clear() and lookups are then made through '
                 'ANOTHER handle (the writer closed and the directory reopened, a second handle beside the writer, an unpickled copy, a forked process; the '
                 'writer itself as control) after the clock moved by {0.75, 2 (an expiry instant), 10, 4000}: the rows that disappear are exactly the passed '
-                '/ tagged / all ones, the returned count is their number, and afterwards the handle sees an item iff it was not removed and now < its expiry time.')
+                '/ tagged / all ones, the returned count is their number, and afterwards the handle sees an item iff it was not removed and now < its expiry time.  '
+                'Every history: no call changes the expire_time of an item stored under another key; lookups and removals change none; touch writes now + ttl '
+                'iff it returns True.  Twin keys: histories over a key stored in pickled form ((1, 2), None, 2^64, True, ...) and the bytes key equal to its '
+                'pickle (same key column, other raw flag) plus one plain key, touch-heavy, with a directed prefix (both stored with different ttls, each touched, '
+                'one deleted / expired and touched again while its twin is live).')
     stats = {'lookups': 0, 'at_expiry_instant': 0, 'on_expired_row': 0, 'deliveries': 0, 'expire_calls': 0, 'expire_max_batch': 0,
              'lazy_removed': 0, 'ops': {}}
     thorough = not ctx.quick or big
@@ -499,6 +612,8 @@ def run(ctx, big=False):
         many_share_one_time(ctx, res, stats, n)
     other_handles(ctx, res, stats, thorough)
     res.extra['other_handles'] = stats.get('other_handles')
+    twin_histories(ctx, res, stats, thorough)
+    res.extra['twin_key_calls'] = stats.get('twin_calls')
     if not ctx.search_mode:
         correspondence(ctx, res, terms + t2, recs + r2)
     res.extra.update({'lookups_checked': stats['lookups'], 'lookups_exactly_at_expiry_instant': stats['at_expiry_instant'],
@@ -532,7 +647,7 @@ def replay(payload):
     objs, hist, cfg = gen_hist.history_from_json(case)
     ctx = fw.Ctx('C04', 'quick', 1)
     try:
-        r = seqdrv.Runner(ctx, cfg, observe_every=1)
+        r = Runner(ctx, cfg, observe_every=1)
         r.objs = objs
         tr = r.run(hist)
         res = fw.Result()
